@@ -24,6 +24,27 @@ def run_harness(binpath, args, topo=None, timeout=600, env=None):
     return rc, out, dt
 
 
+SPINNING = ("free", "jitter", "pool16")
+
+
+def pmap(fn, items, mode_of):
+    """Run harness jobs: controlled / sequential modes keep (at most) one thread of the code under test running and go side by
+    side; free-running and jittered modes spin with many threads and collapse when they share the cores with each other, so at
+    most two of them run at a time (one in the thorough tier, where they use up to all cores).  Results in the order of items."""
+    items = list(items)
+    res = [None] * len(items)
+    calm = [i for i, it in enumerate(items) if mode_of(it) not in SPINNING]
+    spin = [i for i, it in enumerate(items) if mode_of(it) in SPINNING]
+    with cf.ThreadPoolExecutor(max_workers=8) as ex:
+        fut_spin = None
+        with cf.ThreadPoolExecutor(max_workers=(1 if tier() == "thorough" else 2)) as ex2:
+            fs = {i: ex.submit(fn, items[i]) for i in calm}
+            fs.update({i: ex2.submit(fn, items[i]) for i in spin})
+            for i, f in fs.items():
+                res[i] = f.result()
+    return res
+
+
 def is_reset(line):
     return '"ev":"reset"' in line
 
